@@ -95,12 +95,12 @@ type peerConn struct {
 
 type ctx struct {
 	patient bool // the probe: when a step is not complete at quiescence, let virtual time pass (the delay is what is measured)
-	x     *explore.X
-	w     *world.World
-	stack string
-	pki   *world.PKI
-	ok    *world.Hop
-	okTLS *world.Hop
+	x       *explore.X
+	w       *world.World
+	stack   string
+	pki     *world.PKI
+	ok      *world.Hop
+	okTLS   *world.Hop
 	// ppDelay > 0: the PROXY header is sent in two parts (ppCut octets, then the rest) ppDelay apart
 	ppDelay time.Duration
 	ppCut   int
@@ -135,7 +135,11 @@ func (c *ctx) open(stall string) *peerConn {
 			raw.Send([]byte(ppHeader[:c.ppCut]))
 			world.Settle(c.ppDelay)
 			if pc.closedByProxy() {
-				c.x.Failf("closed-before-limit/proxy-protocol-header", "stack %s: a peer that had sent %d bytes of its PROXY header was closed within %v, the header limit is %v", c.stack, c.ppCut, c.ppDelay, ppTO)
+				limit := fmt.Sprint(ppTO)
+				if c.w.Cfg.ProxyProtocolConfig != nil && c.w.Cfg.ProxyProtocolConfig.ReadHeaderTimeout == 0 {
+					limit = "none (0)"
+				}
+				c.x.Failf("closed-before-limit/proxy-protocol-header", "stack %s: a peer that had sent %d bytes of its PROXY header was closed within %v, the header limit is %s", c.stack, c.ppCut, c.ppDelay, limit)
 				return nil
 			}
 			raw.Send([]byte(ppHeader[c.ppCut:]))
@@ -480,6 +484,42 @@ func scenario(x *explore.X, everyOffset bool) {
 	cleanup(x, w, c, stalled, probe)
 }
 
+// noHeaderLimit: --proxy-protocol-read-header-timeout 0 means "no limit": a peer may take as long as it likes for
+// its PROXY header (far longer than the default of the option) and is then served like any other.
+func noHeaderLimit(x *explore.X) {
+	stack := []string{"proxy-protocol", "proxy-protocol+tls"}[x.ChooseFree("stack", 2)]
+	cut := []int{0, 1, 20, len(ppHeader) - 1}[x.ChooseFree("header-bytes-sent-before-the-pause", 4)]
+	pause := []time.Duration{4 * time.Second, 6 * time.Second, time.Minute, 10 * time.Minute}[x.ChooseFree("pause", 4)]
+	c := &ctx{x: x, stack: stack, pki: world.NewPKI("harness CA")}
+	opts := world.Options{TransportCAPEM: c.pki.CAPEM, ProxyProtocol: true, ProxyProtoNoTO: true, TLSListener: stack == "proxy-protocol+tls"}
+	opts.Tweak = func(cfg *forwarder.HTTPProxyConfig, _ *forwarder.HTTPTransportConfig) {
+		cfg.IdleTimeout = idleTO
+		cfg.ReadHeaderTimeout = headerTO
+		cfg.TLSServerConfig.HandshakeTimeout = tlsTO
+	}
+	w, err := world.Start(opts)
+	if err != nil {
+		x.Failf("harness/start", "%v", err)
+		return
+	}
+	c.w = w
+	c.ok, _ = w.Hop("ok.test:80", nil)
+	c.okTLS, _ = w.Hop("ok.test:443", nil)
+	c.ppDelay, c.ppCut = pause, cut
+	c.patient = true
+	x.Check()
+	pc := c.open("")
+	if pc == nil && !x.Failed() {
+		x.Failf("slow-proxy-header-not-served", "stack %s, no PROXY header limit configured: a peer that paused %v after %d header bytes was not served", stack, pause, cut)
+	}
+	x.Outcome(fmt.Sprintf("%s/%v", stack, pc != nil))
+	var st []*peerConn
+	if pc != nil {
+		st = append(st, pc)
+	}
+	cleanup(x, w, c, st, nil)
+}
+
 func cleanup(x *explore.X, w *world.World, c *ctx, stalled []*peerConn, probe *peerConn) {
 	for _, pc := range stalled {
 		pc.s.Close()
@@ -501,10 +541,11 @@ func cleanup(x *explore.X, w *world.World, c *ctx, stalled []*peerConn, probe *p
 
 func TestC15(t *testing.T) {
 	s := explore.NewSuite(t, "C15", "model_checking",
-		"listener stacking(5: plain, TLS, PROXY protocol, PROXY protocol + TLS, MITM inside CONNECT) x every stall point of that stacking (no byte, partial PROXY header at 3 offsets, partial TLS hello at 2 offsets, after CONNECT, partial request head at 3 offsets, between requests, origin slow) [full product] x number of simultaneously stalled peers {1,2,8} x for stalls inside a request head: complete exchanges before it {0,1} x quiet period before its first byte {0, read-header-timeout+1s, idle-timeout-1ms} x {stall for good, complete the head 1 ms before the limit and be served}; for stalls inside the TLS hello of an intercepted CONNECT: quiet period between the 200 and the first hello byte {0, tls-handshake-timeout+1s, idle-timeout-1ms} [bounded: quick <=2 deviations, thorough full product]; thorough additionally stalls at EVERY byte offset of the PROXY header, of the TLS hello prefix and of the request head; all on the virtual clock with distinct limits (idle 30 s, read-header 7 s, TLS handshake 5 s, PROXY header 3 s); states = quiescent states at t0, limit-1ms, limit+1ms; oracle: probe client connecting at the same virtual instant is served in 0 s, stalled sockets open at limit-1ms and closed at limit+1ms, never closed while only the origin is slow (10 virtual minutes), the late answer is delivered")
+		"listener stacking(5: plain, TLS, PROXY protocol, PROXY protocol + TLS, MITM inside CONNECT) x every stall point of that stacking (no byte, partial PROXY header at 3 offsets, partial TLS hello at 2 offsets, after CONNECT, partial request head at 3 offsets, between requests, origin slow) [full product] x number of simultaneously stalled peers {1,2,8} x for stalls inside a request head: complete exchanges before it {0,1} x quiet period before its first byte {0, read-header-timeout+1s, idle-timeout-1ms} x {stall for good, complete the head 1 ms before the limit and be served}; for stalls inside the TLS hello of an intercepted CONNECT: quiet period between the 200 and the first hello byte {0, tls-handshake-timeout+1s, idle-timeout-1ms} [bounded: quick <=2 deviations, thorough full product]; thorough additionally stalls at EVERY byte offset of the PROXY header, of the TLS hello prefix and of the request head; all on the virtual clock with distinct limits (idle 30 s, read-header 7 s, TLS handshake 5 s, PROXY header 3 s); states = quiescent states at t0, limit-1ms, limit+1ms; oracle: probe client connecting at the same virtual instant is served in 0 s, stalled sockets open at limit-1ms and closed at limit+1ms, never closed while only the origin is slow (10 virtual minutes), the late answer is delivered; plus (no-proxy-header-limit) --proxy-protocol-read-header-timeout 0 x {PROXY protocol, PROXY protocol + TLS} x 4 cut points of the header x pause {4 s, 6 s, 1 min, 10 min}: the peer is served; plus later-phase stalls preceded by a PROXY header completed 1 ms inside its limit, and head stalls whose first bytes arrive in the segment of the previous request")
 	s.Assume = []string{"testing/synctest virtual clock: time advances only when every goroutine of the proxy is durably blocked", "sync.Mutex held across timed waits in proxy.go and proxyproto/net.go replaced by a channel mutex at build time (vsync) so the virtual clock can advance"}
 	s.Add(explore.Scenario{Name: "stalls", Remote: true, MaxDev: map[string]int{"quick": 2, "thorough": 4},
 		Run: func(x *explore.X) { world.Run(t, x, func() { scenario(x, false) }) }})
+	s.Add(explore.Scenario{Name: "no-proxy-header-limit", Remote: true, Run: func(x *explore.X) { world.Run(t, x, func() { noHeaderLimit(x) }) }})
 	s.Add(explore.Scenario{Name: "every-offset", Remote: true, Tiers: []string{"thorough"}, MaxDev: map[string]int{"thorough": 2},
 		Run: func(x *explore.X) { world.Run(t, x, func() { scenario(x, true) }) }})
 	s.Main()
